@@ -5,8 +5,8 @@
 From HV Require Export Base.Prelude C19.Model C19.Proofs.
 
 (** the repairs present in the tree the check runs against: all of them, since the
-    `fix:` commits bac6229 b43bb0a f8fe9cb 7262936 c263a86 63a8b58 b504821 b69f65b
-    (C19-F1 … F8) and 07a625c (C18-F2).  [no_fixes] is the pinned tree. *)
+    `fix:` commits bac6229 b43bb0a f8fe9cb 7262936 c263a86 63a8b58 b504821 b69f65b b37641c 9709c71
+    7bff27d e0c0f15 (C19-F1 … F10, F12, F13), 07a625c (C18-F2) and 5e2c60e (C06-F6).  [no_fixes] is the pinned tree. *)
 Definition impl_fixes : fixes :=
   {| fx1 := true; fx2 := true; fx3 := true; fx4 := true; fx5 := true; fx6 := true; fx7 := true; fx8 := true;
      fx9 := true;     (* C19-F9 repaired by fix: commit b37641c *)
